@@ -13,6 +13,7 @@ import (
 	"net/http"
 	"net/url"
 	"reflect"
+	"runtime"
 	"runtime/debug"
 	"strconv"
 	"strings"
@@ -117,6 +118,37 @@ func (m *vfC07Machine) actClear(t *rapid.T) {
 	m.s.clear()
 }
 
+// actRecordThenClear: a clear that arrives right after the queries that filled
+// the memory buffer, before the flush they started has run (one processor, so
+// the flush goroutine cannot start until this one yields).  Everything is
+// gone afterwards either way; the started flush must still come to an end.
+func (m *vfC07Machine) actRecordThenClear(t *rapid.T) {
+	m.s.tb = t
+	if !m.s.fileEnabled || !m.s.enabled {
+		t.Skip("no flush to race with")
+	}
+	goroutines := runtime.NumGoroutine()
+	prev := runtime.GOMAXPROCS(1)
+	m.s.noAwait = true
+	n := rapid.IntRange(1, int(min(m.s.memSize, 6))+1).Draw(t, "records_before_clear")
+	for i := 0; i < n; i++ {
+		m.s.drawRecord(t)
+	}
+	m.s.noAwait = false
+	m.s.clear()
+	runtime.GOMAXPROCS(prev)
+	// the flush goroutine that was started must have run (and found nothing)
+	// before anything else is recorded, or it would write the next query early
+	for start := time.Now(); runtime.NumGoroutine() > goroutines; {
+		if time.Since(start) > 30*time.Second {
+			t.Fatalf("VERIF-INCONCLUSIVE the flush goroutine started before the clear has not ended after 30 s")
+		}
+		time.Sleep(50 * time.Microsecond)
+	}
+	m.s.awaitFlush()
+	vfC07.Class("clear_right_after_filling_the_buffer")
+}
+
 func (m *vfC07Machine) actConfigure(t *rapid.T) {
 	m.s.tb = t
 	enabled := rapid.IntRange(0, 3).Draw(t, "enabled") != 0
@@ -205,6 +237,7 @@ func TestVFC07History(t *testing.T) {
 			"flush":     m.actFlush,
 			"rotate":    m.actRotate,
 			"clear":     m.actClear,
+			"rec_clear": m.actRecordThenClear,
 			"configure": m.actConfigure,
 			"restart":   m.actRestart,
 			"reads":     m.actReads,
